@@ -135,7 +135,7 @@ Scalar MASA::cp_normal<Scalar>::eval_prior(Scalar x)
   using std::pow;
 
   Scalar prior;
-  prior = sqrt(2*pi*pow(sigma,2)) * exp(-(1/(2*pow(sigma,2)))*pow((x-m),2));
+  prior = exp(-(1/(2*pow(sigma,2)))*pow((x-m),2)) / sqrt(2*pi*pow(sigma,2));
   return prior;
 }
 
@@ -159,7 +159,7 @@ Scalar MASA::cp_normal<Scalar>::eval_posterior(Scalar x)
 
   sigmap = sqrt(1/((1/pow(sigma,2)) + (Scalar(vec_data.size())/pow(sigma_d,2))));
   mp     = pow(sigmap,2) * (m/pow(sigma,2) + (Scalar(vec_data.size())*av/pow(sigma_d,2)));
-  post   = sqrt(2*pi*pow(sigmap,2)) * exp(-(1/(2*pow(sigmap,2)))*pow((x-mp),2));
+  post   = exp(-(1/(2*pow(sigmap,2)))*pow((x-mp),2)) / sqrt(2*pi*pow(sigmap,2));
 
   return post;
 }
@@ -179,7 +179,7 @@ Scalar MASA::cp_normal<Scalar>::eval_cen_mom(int k)
 
   if(k%2 == 0 ) // k is even!
     {
-      moment = pow(sigma,k) * (factorial(k) / pow(Scalar(2),k/2) * factorial(k/2));
+      moment = pow(sigma,k) * (factorial(k) / (pow(Scalar(2),k/2) * factorial(k/2)));
     }
   else // k is odd
     {
@@ -197,8 +197,17 @@ Scalar MASA::cp_normal<Scalar>::eval_post_mean()
   using std::pow;
 
   Scalar mean;
+  Scalar av = 0;
+
+  // mean of the current data vector
+  for(int it = 0;it<int(vec_data.size());it++)
+    {
+      av +=vec_data[it];
+    }
+  av = av / (Scalar)vec_data.size();
+
   Scalar sigmap = sqrt(1/((1/pow(sigma,2)) + (Scalar(vec_data.size())/pow(sigma_d,2))));
-  mean     = pow(sigmap,2) * (m/pow(sigma,2) + (Scalar(vec_data.size())*x_bar/pow(sigma_d,2)));  
+  mean     = pow(sigmap,2) * (m/pow(sigma,2) + (Scalar(vec_data.size())*av/pow(sigma_d,2)));  
   return mean;
 }
 
